@@ -103,6 +103,13 @@ CLAIMED = {
         "Cubic-spline reproduction of cubics needs >= 4 interior nodes per axis; cube precision = printed precision; closest_point only for diagonal axes (documented) and queries within half a step of the box.",
         "DESIGN.md 3/C13",
     ),
+    "C06": (
+        "exploration",
+        "product atom count 1..6 x element assignments over 8 elements (all for <=3 atoms, <=2 deviations from homonuclear above; incl. elements needing the first and second radius fallback) x 3 geometries x switching order 1..5 x 5 segmentations of a structured point set (nuclei, bond midpoints, bond extensions, near, far), every evaluation route compared point by point with a plain-loop reference written from Becke's definition; 24 cube rotations x 2 translations and atom permutations; Hirshfeld share vs pro-atom files read directly",
+        "Every discrete branch combination (chunk count 1..4, chunk edges inside/on/between segments, empty segments, clipped and unclipped heteronuclear shifts, both fallbacks) is enumerated (2.5e6 weights quick); partition-of-unity facts are properties of the reference itself, so agreement to 1e-13 transfers them to all routes.",
+        "Reference = Becke 1988 with |a| clipped at 0.45 and the documented fallback; VERIF_SEED jitters coordinates by <= 0.03 bohr.",
+        "DESIGN.md 3/C06",
+    ),
 }
 
 NOT_YET = "check not built yet in this session (work in progress; see DESIGN.md section 8 for the order of work)"
